@@ -179,6 +179,7 @@ LAST_RECORD_OFFSET_OFFSET = NAME_SIZE + VERSION_SIZE + 4
 class FileJournal(Journal):
 
     def __init__(self, journalFile):
+        self.__journalFileName = journalFile
         self.__journalFile = ResizableFile(journalFile, defaultContent=self.__getDefaultHeader())
         self.__journal = []
         self.__metaStorer = MetaStorer(journalFile + '.meta')
@@ -243,9 +244,21 @@ class FileJournal(Journal):
 
     def deleteEntriesTo(self, entryTo):
         journal = self.__journal[entryTo:]
-        self.clear()
+        # The entries to keep are written to a new file that then replaces the journal in one step:
+        # a process killed at any moment leaves the old or the new journal, not a cleared or half-filled one.
+        tmpFileName = self.__journalFileName + '.tmp'
+        if os.path.exists(tmpFileName):
+            os.remove(tmpFileName)
+        oldJournalFile = self.__journalFile
+        self.__journalFile = ResizableFile(tmpFileName, defaultContent=self.__getDefaultHeader())
+        self.__journal = []
+        self.__currentOffset = FIRST_RECORD_OFFSET
         for entry in journal:
             self.add(*entry)
+        self.__journalFile._destroy()
+        oldJournalFile._destroy()
+        shutil.move(tmpFileName, self.__journalFileName)
+        self.__journalFile = ResizableFile(self.__journalFileName)
 
     def _destroy(self):
         self.__journalFile._destroy()
